@@ -24,10 +24,12 @@ type writeShape struct {
 	roots map[ssa.Value]bool // map keys only: the maps written are exactly the values of these
 	objs  map[ssa.Value]bool // cell keys: local allocations (not yet escaped) that were written
 	nonObj bool              // some write is not to such an object
+	cellObjs map[ssa.Value]bool // local allocations (escaped or not) written by direct stores
+	nonCell  bool               // some write is not a direct store into a local allocation
 }
 
 func newShape() *writeShape {
-	return &writeShape{fids: map[int]bool{}, roots: map[ssa.Value]bool{}, objs: map[ssa.Value]bool{}}
+	return &writeShape{fids: map[int]bool{}, roots: map[ssa.Value]bool{}, objs: map[ssa.Value]bool{}, cellObjs: map[ssa.Value]bool{}}
 }
 
 func (s *writeShape) merge(o *writeShape) bool {
@@ -52,6 +54,15 @@ func (s *writeShape) merge(o *writeShape) bool {
 	}
 	if o.nonObj && !s.nonObj {
 		s.nonObj, ch = true, true
+	}
+	for r := range o.cellObjs {
+		if !s.cellObjs[r] {
+			s.cellObjs[r] = true
+			ch = true
+		}
+	}
+	if o.nonCell && !s.nonCell {
+		s.nonCell, ch = true, true
 	}
 	if o.elem && !s.elem {
 		s.elem, ch = true, true
@@ -450,6 +461,11 @@ func (ma *modAnalysis) recordStore(ms *modset, st *ssa.Store, addr ssa.Value, t 
 			} else {
 				sh.nonObj = true
 			}
+			if kind == rValue && st != nil && isLocalAllocation(root) {
+				sh.cellObjs[root] = true
+			} else {
+				sh.nonCell = true
+			}
 			switch {
 			case strings.HasPrefix(key, "F_"):
 				sh.any = true // the whole field array gets a new version
@@ -475,6 +491,7 @@ func (ma *modAnalysis) recordMapWrite(ms *modset, m ssa.Value, in map[*ssa.Basic
 			ms.shape(k).roots[val] = true
 		default:
 			ms.shape(k).any = true
+			ms.shape(k).nonCell = true
 		}
 	}
 }
@@ -520,6 +537,7 @@ func (ma *modAnalysis) mergeCallee(ms *modset, cs *modset, call *ssa.CallCommon,
 		sh.any = sh.any || s.any
 		if strings.HasPrefix(k, "H_") || strings.HasPrefix(k, "F_") {
 			sh.nonObj = true
+			sh.nonCell = true
 		}
 		for r := range s.roots {
 			p, ok := r.(*ssa.Parameter)
@@ -588,6 +606,7 @@ func (ma *modAnalysis) region(fn *ssa.Function, in map[*ssa.BasicBlock]bool) *mo
 			case *ssa.Send:
 				if _, ok := ma.w.db.Ghosts["sent"]; ok {
 					ms.shape("G_sent").any = true
+					ms.shape("G_sent").nonCell = true
 				}
 			case ssa.CallInstruction:
 				call := x.Common()
@@ -600,6 +619,7 @@ func (ma *modAnalysis) region(fn *ssa.Function, in map[*ssa.BasicBlock]bool) *mo
 					case "copy":
 						for _, lf := range c.leaves(call.Args[0].Type().Underlying().(*types.Slice).Elem()) {
 							ms.shape(ma.cellKey(lf.typ)).elem = true
+							ms.shape(ma.cellKey(lf.typ)).nonCell = true
 						}
 					}
 					continue
@@ -613,15 +633,18 @@ func (ma *modAnalysis) region(fn *ssa.Function, in map[*ssa.BasicBlock]bool) *mo
 						// assumed contract (also used to cut the analysis at module functions treated as opaque)
 						for _, k := range ct.Modifies {
 							ms.shape(ma.w.db.modKey(k)).any = true
+							ms.shape(ma.w.db.modKey(k)).nonCell = true
 						}
 						for _, em := range ct.Emits {
 							ms.shape("G_" + em.Label).any = true
+							ms.shape("G_" + em.Label).nonCell = true
 						}
 						continue
 					}
 					if ct := ma.w.db.Contracts[f.String()]; ct != nil {
 						for _, em := range ct.Emits {
 							ms.shape("G_" + em.Label).any = true
+							ms.shape("G_" + em.Label).nonCell = true
 						}
 					}
 					if cs, ok := ma.sets[f]; ok {
@@ -629,6 +652,7 @@ func (ma *modAnalysis) region(fn *ssa.Function, in map[*ssa.BasicBlock]bool) *mo
 					} else if ct := ma.w.db.Contracts[f.String()]; ct != nil {
 						for _, k := range ct.Modifies {
 							ms.shape(ma.w.db.modKey(k)).any = true
+							ms.shape(ma.w.db.modKey(k)).nonCell = true
 						}
 					}
 				}
